@@ -32,6 +32,10 @@ class Model:
         self._log(oid, kind, value, optional)
 
     def _log(self, oid, kind, value, optional=False):
+        if any(k in "CE" and not opt for k, _, opt in self.logs.get(oid, [])):
+            return  # an observer that has got its terminal notification (from a nested call) ignores what the outer call still hands it
+        if self.unsubscribed and oid in self.unsubscribed:
+            return  # unsubscribing detaches the observer itself: whatever a call that is still in progress hands it is dropped
         self.logs.setdefault(oid, []).append((kind, value, optional))
         k = self.counts.get(oid, 0)
         self.counts[oid] = k + 1
@@ -367,9 +371,10 @@ def gen_history(rng, kind, falsy_p=0.4, max_ops=12):
             has_err = True if not disposed else rng.random() < 0.5
             ops.append(["sub", next_oid, has_err])
             subscribed.append(next_oid)
-            if kind == "replay" and rng.random() < 0.12:
-                # the observer feeds the subject from inside its k-th notification (replay only: its per-subscriber FIFOs
-                # give such a call a defined place in every subscriber's order)
+            if (kind == "replay" and rng.random() < 0.12) or (kind in ("behavior", "plain") and rng.random() < 0.06):
+                # the observer feeds the subject from inside its k-th notification (replay: its per-subscriber FIFOs give such a
+                # call a defined place in every subscriber's order; plain / behavior: the nested call is delivered to everybody
+                # subscribed at that moment before the outer delivery goes on)
                 fb = rng.choice([["next", vt.gen_value(rng, falsy_p)], ["next", vt.gen_value(rng, falsy_p)], ["completed"], ["error", "x"]])
                 scripts[str(next_oid)] = {"k": rng.randrange(0, 4), "do": fb}
             elif rng.random() < 0.05:
